@@ -9,7 +9,7 @@ C(kind, join, obs, hb, unreg, f, health) ==
      fsleep |-> 0, regst |-> "ACTIVE", forget |-> 0, keep |-> ~unreg]
 
 B(bstart, ext, stop, ready, wipe, kv, crash, envBy) ==
-    [start |-> bstart, ext |-> ext, stop |-> stop, ready |-> ready, wipe |-> wipe, kv |-> kv, crash |-> crash, envBy |-> envBy]
+    [start |-> bstart, ext |-> ext, stop |-> stop, ready |-> ready, wipe |-> wipe, kv |-> kv, crash |-> crash, envBy |-> envBy, stall |-> 0]
 
 AllCfgs == UNION {{f[i] : i \in DOMAIN f} : f \in Cfg0}
 
@@ -34,6 +34,13 @@ BudC09q   == B(3, 0, 1, 0, 0, 0, 1, 100)
 Cfg0C08r  == {<<C("classic", 0, 1, 1, FALSE, FALSE, TRUE), C("classic", 0, 0, 1, FALSE, FALSE, TRUE)>>,
               <<C("classic", 0, 1, 1, FALSE, FALSE, FALSE), C("classic", 0, 0, 1, FALSE, TRUE, TRUE)>>}
 BudC08r   == B(2, 0, 0, 2, 1, 0, 0, 100)
+\* C08 CAS retries: a lifecycler is stalled inside a store call (lost attempt) while the other one and the environment go on
+Cfg0C08s  == {<<C("classic", 1, 0, 1, FALSE, FALSE, FALSE), C("classic", 0, 1, 1, TRUE, FALSE, TRUE)>>,
+              <<[C("basic", 0, 1, 1, TRUE, FALSE, FALSE) EXCEPT !.forget = 2], C("classic", 0, 0, 1, FALSE, FALSE, FALSE)>>}
+BudC08s   == [B(2, 1, 1, 1, 0, 0, 0, 100) EXCEPT !.stall = 2]
+\* tokens of different instances never collide while the store is a linearizable register that is never wiped and
+\* nobody inherits tokens from a file (the clause "none visible as another instance's token when chosen", globally)
+NoCollision == TokenUnique
 \* C09 liveness: the environment is quiet after time 1
 Cfg0Live  == {<<C("classic", 1, 1, 1, FALSE, TRUE, FALSE), [C("basic", 0, 1, 1, FALSE, TRUE, FALSE) EXCEPT !.forget = 3]>>}
 BudLiveC  == B(3, 0, 0, 0, 0, 0, 1, 1)
